@@ -32,6 +32,11 @@ def grid_cases(ctx, L, fns, cid0):
                 if size is not None and tuple(np.atleast_1d(size)) == d.shape and lo == 0 and hi == 1:
                     state["applied"] += 1
                     return d.copy()
+                if size is not None and tuple(np.atleast_1d(size)) == d.shape[::-1] and lo == 0 and hi == 1:
+                    # a locus-major block: most likely read transposed.  The replay is used if it then agrees with the
+                    # specification, otherwise it is inapplicable (any other mapping of iid draws is equally valid)
+                    state["applied"] += 1; state["transposed"] = True
+                    return d.T.copy()
                 state["other"] += 1            # draw structure differs from the spec's: script inapplicable
                 return np.random.RandomState(1).uniform(lo, hi, size)
             rng = Scripted(0, uniform=uni)
@@ -45,6 +50,8 @@ def grid_cases(ctx, L, fns, cid0):
                     c["src"] = [[9] * L for _ in rows]
                 if state["applied"] != 1 or state["other"]:
                     c["noscript"] = True
+                if state.get("transposed"):
+                    c["transposed"] = True
             except Exception as e:
                 c["src"] = []; c["exc"] = "%s: %s" % (type(e).__name__, e)
             out.append(c)
@@ -142,7 +149,7 @@ def run(ctx):
         ctx.count(1, (c["fn"], tuple(c["J"])) if any(0 < j < K for j in c["J"]) else None)
         if c.get("exc"):
             ctx.violation(c["fn"] + ":exception", c["exc"], {k: c[k] for k in ("fn", "J")})
-        elif c.get("noscript"):
+        elif c.get("noscript") or (c.get("transposed") and v != "ok"):
             ctx.extra["script_inapplicable"] = ctx.extra.get("script_inapplicable", 0) + 1
         elif v != "ok":
             bad = None
